@@ -1263,9 +1263,28 @@ def transform(fn, proceed, to_instrument=True, set_conformer=True):
         # If the function is a closure, we have created a function
         # called #WRAP that takes the closure variables as arguments
         # and returns the function that interests us.
-        actual_fn = glb.pop("#WRAP")(
-            *[cell.cell_contents for cell in fn.__closure__]
-        )
+        factory = glb.pop("#WRAP")
+        wrapped = factory(*[None for _ in fn.__closure__])
+        if wrapped.__code__.co_freevars == fn.__code__.co_freevars:
+            # Share the cells of the original function, so that the new one
+            # sees (and, with nonlocal, makes) later changes to the variables
+            # of the enclosing scope instead of working on a copy
+            actual_fn = types.FunctionType(
+                wrapped.__code__,
+                glb,
+                wrapped.__name__,
+                wrapped.__defaults__,
+                fn.__closure__,
+            )
+            actual_fn.__kwdefaults__ = wrapped.__kwdefaults__
+            actual_fn.__annotations__ = wrapped.__annotations__
+            actual_fn.__qualname__ = wrapped.__qualname__
+            actual_fn.__module__ = wrapped.__module__
+            actual_fn.__doc__ = wrapped.__doc__
+        else:  # pragma: no cover
+            actual_fn = factory(
+                *[cell.cell_contents for cell in fn.__closure__]
+            )
     else:
         actual_fn = glb[fname]
 
